@@ -4,7 +4,7 @@
    correspondence run) and the documented effects; the theorems say they coincide for ALL lists. *)
 From Coq Require Import List Arith Bool.
 From BS Require Import Base.Sexp Model.Heap Model.Edit Spec.Tree Spec.ListEdit
-  Model.Iter Proofs.HeapBasics Proofs.Views Proofs.EditFrames Proofs.ExtractRep Proofs.InsertRep Proofs.ListEditProofs Proofs.EditBase Proofs.EditRep Proofs.EditEffect Proofs.EditConserve Model.EditOps.
+  Model.Iter Proofs.HeapBasics Proofs.Views Proofs.EditFrames Proofs.ExtractRep Proofs.InsertRep Proofs.ListEditProofs Proofs.EditBase Proofs.EditRep Proofs.EditEffect Proofs.EditConserve Proofs.EditConserve2 Model.EditOps.
 Import ListNotations.
 
 (* a successful _insert of a parentless child puts it at the requested (clipped) index *)
@@ -478,3 +478,136 @@ Theorem C02_op_replace_with_mixed_documented s self p args s' :
   (forall y, y < nxt s -> y <> self -> ~ In y ids -> par (hp s' y) = par (hp s y)).
 Proof. exact (op_replace_with_mixed_documented s self p args s'). Qed.
 Print Assumptions C02_op_replace_with_mixed_documented.
+
+(* ---- BeautifulSoup-object arguments, smooth(), clear(decompose=True), and one statement for every call (Proofs/EditConserve2.v) ----
+   A BeautifulSoup argument stands for the children it still has when ITS TURN comes (processing time, not call time:
+   Example ex_soup_processing_time) - C02_op_*_expansion give the receiving child list as the documented splice of that
+   expansion, the frame, and that every soup argument ends up childless where it was.  smooth(): per tag of the subtree the
+   child list is the old one with every maximal run of adjacent plain strings replaced by one fresh string whose text is the
+   concatenation (empty strings are merged like any other; preformatted strings are not merged), nothing mergeable is left,
+   the text in document order is unchanged, merged originals are live and detached.  C02_apply_op_documented: for EVERY
+   admissible call that returns, the state is consistent, conservation holds and the call's documented effect holds. *)
+
+Theorem C02_op_insert_expansion s self pos args s' :
+  consistent s -> wf_op s (OInsert self pos args) -> op_insert s self pos args = Ok s' ->
+  let ids := expand (hp s) (nxt s) [] args in
+  nxt s' = nxt s + nstr args /\
+  kids (hp s' self) = kmove_all pos ids (kids (hp s self)) /\
+  (NoDup ids -> kids (hp s' self) = splice_spec pos ids (kids (hp s self))) /\
+  placed s s' self ids /\ soups_emptied s s' args ids.
+Proof. exact (op_insert_expansion s self pos args s'). Qed.
+Print Assumptions C02_op_insert_expansion.
+
+Theorem C02_op_insert_soup_documented s self pos args s' :
+  consistent s -> wf_op s (OInsert self pos args) -> op_insert s self pos args = Ok s' ->
+  let ids := arg_expansion (hp s) (nxt s) args in
+  NoDup ids ->
+  nxt s' = nxt s + nstr args /\
+  kids (hp s' self) = splice_spec pos ids (kids (hp s self)) /\
+  placed s s' self ids /\ soups_emptied s s' args ids.
+Proof. exact (op_insert_soup_documented s self pos args s'). Qed.
+Print Assumptions C02_op_insert_soup_documented.
+
+Theorem C02_op_append_soup_documented s self a s' :
+  consistent s -> wf_op s (OAppend self a) -> op_append s self a = Ok s' ->
+  let ids := arg_just s a in
+  nxt s' = nxt s + nstr [a] /\
+  kids (hp s' self) = others ids (kids (hp s self)) ++ ids /\
+  placed s s' self ids /\ soups_emptied s s' [a] ids.
+Proof. exact (op_append_soup_documented s self a s'). Qed.
+Print Assumptions C02_op_append_soup_documented.
+
+Theorem C02_op_replace_with_expansion s self p args s' :
+  consistent s -> wf_op s (OReplaceWith self args) -> ~ In (AEl self) args ->
+  par (hp s self) = Some p -> op_replace_with s self args = Ok s' ->
+  let ids := expand (hp s) (nxt s) [] args in
+  nxt s' = nxt s + nstr args /\ par (hp s' self) = None /\
+  (NoDup ids -> kids (hp s' p) = replace_spec self ids (kids (hp s p))) /\
+  (forall q, live s q -> q <> p -> kids (hp s' q) = others ids (kids (hp s q))) /\
+  (forall c, In c ids -> par (hp s' c) = Some p) /\
+  (forall y, y < nxt s -> y <> self -> ~ In y ids -> par (hp s' y) = par (hp s y)) /\
+  soups_emptied s s' args ids.
+Proof. exact (op_replace_with_expansion s self p args s'). Qed.
+Print Assumptions C02_op_replace_with_expansion.
+
+Theorem C02_op_extend_list_expansion s self args s' :
+  consistent s -> wf_op s (OExtendList self args) -> op_extend_list s self args = Ok s' ->
+  let ids := expand (hp s) (nxt s) [] args in
+  NoDup ids ->
+  nxt s' = nxt s + nstr args /\
+  kids (hp s' self) = others ids (kids (hp s self)) ++ ids /\
+  placed s s' self ids /\ soups_emptied s s' args ids.
+Proof. exact (op_extend_list_expansion s self args s'). Qed.
+Print Assumptions C02_op_extend_list_expansion.
+
+Theorem C02_op_insert_before_expansion s self p args s' :
+  consistent s -> wf_op s (OInsertBefore self args) -> Forall (soup_root s) args ->
+  par (hp s self) = Some p -> op_insert_before s self args = Ok s' ->
+  let ids := expand (hp s) (nxt s) [] args in
+  NoDup ids ->
+  nxt s' = nxt s + nstr args /\
+  kids (hp s' p) = before_spec self ids (kids (hp s p)) /\
+  placed s s' p ids /\ soups_emptied s s' args ids.
+Proof. exact (op_insert_before_expansion s self p args s'). Qed.
+Print Assumptions C02_op_insert_before_expansion.
+
+Theorem C02_op_insert_after_expansion s self p args s' :
+  consistent s -> wf_op s (OInsertAfter self args) -> Forall (soup_root s) args ->
+  par (hp s self) = Some p -> op_insert_after s self args = Ok s' ->
+  let ids := expand (hp s) (nxt s) [] args in
+  NoDup ids ->
+  nxt s' = nxt s + nstr args /\
+  kids (hp s' p) = after_spec self ids (kids (hp s p)) /\
+  placed s s' p ids /\ soups_emptied s s' args ids.
+Proof. exact (op_insert_after_expansion s self p args s'). Qed.
+Print Assumptions C02_op_insert_after_expansion.
+
+Theorem C02_expansion_disjoint s args : NoDup (arg_expansion (hp s) (nxt s) args) ->
+  expand (hp s) (nxt s) [] args = arg_expansion (hp s) (nxt s) args /\ NoDup (expand (hp s) (nxt s) [] args).
+Proof. exact (expansion_disjoint s args). Qed.
+Print Assumptions C02_expansion_disjoint.
+
+Theorem C02_op_clear_true_wiped s self s' : consistent s -> live s self -> op_clear s self true = Ok s' ->
+  forall y, live s y -> anc (hp s) self y -> y <> self -> hp s' y = wiped (hp s y).
+Proof. exact (op_clear_true_wiped s self s'). Qed.
+Print Assumptions C02_op_clear_true_wiped.
+
+Theorem C02_forest_read_off F s : cons_with F s ->
+  forall T b, In (T, b) F -> abs_tree (fuel_of s) (hp s) (rid T) = T /\ par (hp s (rid T)) = None.
+Proof. exact (forest_read_off F s). Qed.
+Print Assumptions C02_forest_read_off.
+
+Theorem C02_op_smooth_documented s self s' : consistent s -> live s self -> op_smooth s self = Ok s' ->
+  ext s s' /\
+  (forall q, live s q -> anc (hp s) self q -> (q = self \/ is_tag (hp s) q = true) ->
+     exists n, nxt s <= n /\ kids (hp s' q) = fst (smooth_list (hp s) (kids (hp s q)) n)) /\
+  (forall q, live s q -> ~ (anc (hp s) self q /\ (q = self \/ is_tag (hp s) q = true)) -> kids (hp s' q) = kids (hp s q)) /\
+  (forall y, live s y -> par (hp s' y) = par (hp s y) \/
+     (par (hp s' y) = None /\ exists q, anc (hp s) self q /\ par (hp s y) = Some q)) /\
+  (forall q, live s q -> anc (hp s) self q -> (q = self \/ is_tag (hp s) q = true) ->
+     mrel (nxt s') (hp s') (kids (hp s q)) (kids (hp s' q))).
+Proof. exact (op_smooth_documented s self s'). Qed.
+Print Assumptions C02_op_smooth_documented.
+
+Theorem C02_op_smooth_text s self s' : consistent s -> live s self -> op_smooth s self = Ok s' ->
+  forall f q, live s q -> anc (hp s) self q -> text_below f (hp s') q = text_below f (hp s) q.
+Proof. exact (op_smooth_text s self s'). Qed.
+Print Assumptions C02_op_smooth_text.
+
+Theorem C02_op_smooth_merged s self s' q y : consistent s -> live s self -> op_smooth s self = Ok s' ->
+  live s q -> anc (hp s) self q -> (q = self \/ is_tag (hp s) q = true) -> In y (kids (hp s q)) ->
+  (In y (kids (hp s' q)) /\ par (hp s' y) = Some q) \/
+  (~ In y (kids (hp s' q)) /\ par (hp s' y) = None /\ plain_str (hp s) y = true /\ kids (hp s' y) = [] /\ live s' y).
+Proof. exact (op_smooth_merged s self s' q y). Qed.
+Print Assumptions C02_op_smooth_merged.
+
+Theorem C02_op_smooth_nothing_left s self s' q : consistent s -> live s self -> op_smooth s self = Ok s' ->
+  live s q -> anc (hp s) self q -> (q = self \/ is_tag (hp s) q = true) ->
+  marked_positions (hp s') 0 (kids (hp s' q)) = [].
+Proof. exact (op_smooth_nothing_left s self s' q). Qed.
+Print Assumptions C02_op_smooth_nothing_left.
+
+Theorem C02_apply_op_documented s o s' : consistent s -> wf_op s o -> apply_op s o = Ok s' ->
+  consistent s' /\ conserves_doc s o s' /\ documented s o s'.
+Proof. exact (apply_op_documented s o s'). Qed.
+Print Assumptions C02_apply_op_documented.
